@@ -103,7 +103,8 @@ def run(ctx, model):
         ctx.note("uniformity precondition failed: " + "; ".join(bad[:3]))
     ctx.exhaustive = not bad
     abs_wrong = {}
-    for meth, (mlabel, mfun) in itertools.product(METHODS, (("", MM.std_matches), (" [twelve groups]", MM.wide_matches))):
+    for meth, (mlabel, mfun) in itertools.product(METHODS, (("", MM.std_matches), (" [twelve groups]", MM.wide_matches),
+                                                                   (" [nested groups]", MM.nested_matches))):
         ms = mfun(TEXT)
         f = model.method(PRE, "Pregex", meth)
         has_rel = "relative_to_match" in f.params
